@@ -5,8 +5,11 @@ getters for quotes, depth and series, `priority_queue` for the per-order book sn
 objects the "agent" (this driver) keeps, and a Logger subclass counting delivered records.
 """
 import heapq
+
+import numpy as np
 import math
 import random
+import warnings
 from fractions import Fraction
 
 from .common import BADPX, NOPX, MachineryError, Units, import_pams
@@ -148,12 +151,35 @@ def current_row(m, intern):
     return intern.setdefault(row, len(intern) + 1)
 
 
+# negative scenarios at construction (order.py: volume, ttl, kind / price combination): name -> overriding arguments
+CTOR_NEG = {
+    "zero-volume": lambda kw: {"volume": 0},
+    "negative-volume": lambda kw: {"volume": -abs(kw["volume"])},
+    "zero-ttl": lambda kw: {"ttl": 0},
+    "negative-ttl": lambda kw: {"ttl": -1},
+    "limit-without-price": lambda kw: {"kind": LIMIT_ORDER, "price": None},
+    "market-with-price": lambda kw: {"kind": MARKET_ORDER, "price": 5.0},
+}
+
+
+def times_argument(t, salt, with_past):
+    """the iterable of times handed to a plural accessor: it contains t (possibly a future time) in every shape an
+    iterable of ints may take - list, tuple, ascending / descending range, t first or last"""
+    shapes = [lambda: [0, t] if with_past else [t],
+              lambda: (t, 0) if with_past else (t,),
+              lambda: range(0, t + 1),
+              lambda: range(t, -1, -1),
+              lambda: [t, 0] if with_past else [t],
+              lambda: range(t, t + 1)]
+    return shapes[salt % len(shapes)]()
+
+
 class Broken(Exception):
     """The code under test raised where no valid operation may raise; the history ends with a crash event."""
 
 
 class BookSession:
-    def __init__(self, tick=1.0, den=2, exact=True, p0=20, fund0=None, market_cls=None):
+    def __init__(self, tick=1.0, den=2, exact=True, p0=20, fund0=None, market_cls=None, setup_tick=None):
         self.U = Units(tick, den, exact)
         self.tick_size, self.den, self.exact = tick, den, exact
         self.logger = CountLogger()
@@ -162,7 +188,10 @@ class BookSession:
         self.m = cls(market_id=0, prng=random.Random(0), simulator=sim, name="m", logger=self.logger)
         self.p0 = p0
         self.fund0 = p0 if fund0 is None else fund0
-        self.m.setup({"tickSize": tick, "marketPrice": self.U.f(p0)})
+        self.m.setup({"tickSize": tick if setup_tick is None else setup_tick, "marketPrice": self.U.f(p0)})
+        if setup_tick is not None:
+            self.m.tick_size = tick        # the tick size in force is the market's public attribute, whatever setup saw
+        self.setup_tick = setup_tick
         self.m._update_time(next_fundamental_price=self.U.f(self.fund0))
         self.m._is_running = True
         self.logger.take()
@@ -177,7 +206,7 @@ class BookSession:
     # ------------------------------------------------------------------ observation
     def header(self):
         return {"den": self.den, "p0": self.p0, "fund0": self.fund0, "exact": self.exact, "tick": self.tick_size,
-                "ev": self.ev, "ops": self.ops}
+                "setup_tick": self.setup_tick, "ev": self.ev, "ops": self.ops}
 
     def _snap(self):
         return snap_market(self.m, self.U)
@@ -215,10 +244,29 @@ class BookSession:
                 return None
             obj = cands[req % len(cands)]
             o = self.objs[obj]
-        else:
-            o = Order(agent_id=0, market_id=1 if neg == "foreign" else 0, is_buy=buy,
-                      kind=MARKET_ORDER if mo else LIMIT_ORDER, volume=vol, price=price,
+        elif neg in CTOR_NEG:
+            # an order the constructor must refuse (volume, ttl, kind / price combination): if it can be built, it is handed
+            # to the market, which is then the last line of defence
+            kw = dict(agent_id=0, market_id=0, is_buy=buy, kind=MARKET_ORDER if mo else LIMIT_ORDER, volume=vol, price=price,
                       ttl=None if ttl == 0 else ttl)
+            kw.update(CTOR_NEG[neg](kw))
+            try:
+                with warnings.catch_warnings():
+                    warnings.simplefilter("ignore")
+                    o = Order(**kw)
+            except ValueError as ex:
+                e = {"k": "sub", "obj": -1, "ag": 0, "buy": bool(buy), "mo": bool(mo), "req": 0, "vol": 0, "ttl": 0, "neg": neg,
+                     "out": type(ex).__name__, "id": -1, "px": NOPX, "t0": -1, "c19": ""}
+                return self._emit(e)
+            self.objs.append(o)
+            obj = len(self.objs) - 1
+        else:
+            # (a side computed with numpy arrives as numpy.bool_: it is the same side)
+            # (a fractional time-to-live, as ArbitrageAgent hands its orderTimeLength through: t0 + ttl + 0.5 < now exactly when
+            #  t0 + ttl < now for integer clocks, so the order lives as long as with the whole number)
+            o = Order(agent_id=0, market_id=1 if neg == "foreign" else 0, is_buy=(np.bool_(buy) if len(self.objs) % 5 == 1 else buy),
+                      kind=MARKET_ORDER if mo else LIMIT_ORDER, volume=vol, price=price,
+                      ttl=None if ttl == 0 else (ttl + 0.5 if len(self.objs) % 7 == 3 else ttl))
             self.objs.append(o)
             obj = len(self.objs) - 1
         e = {"k": "sub", "obj": obj, "ag": 0, "buy": bool(o.is_buy), "mo": o.kind == MARKET_ORDER,
@@ -318,7 +366,7 @@ class BookSession:
         self.ops.append(["probe", acc, int(t), bool(plural_with_past)])
         try:
             if acc in PLURAL_ACCESSORS:
-                getattr(m, acc)([0, t] if plural_with_past else [t])
+                getattr(m, acc)(times_argument(t, len(self.ops), plural_with_past))
             else:
                 getattr(m, acc)(t)
             res = "value"
@@ -340,7 +388,7 @@ class BookSession:
 def replay_ops(hdr, market_cls=None):
     """Re-execute the inputs of a recorded history against the current tree; returns the new history."""
     s = BookSession(tick=hdr["tick"], den=hdr["den"], exact=hdr["exact"], p0=hdr["p0"], fund0=hdr["fund0"],
-                    market_cls=market_cls)
+                    market_cls=market_cls, setup_tick=hdr.get("setup_tick"))
     try:
         _replay_into(s, hdr)
         s.end()
